@@ -1152,6 +1152,21 @@ class Engine:
                 return (callee, list(args))
         return None
 
+    def carrier_target(self, t, args):
+        """`x.into()` / `Y::from(x)` where the crate itself provides `impl From<X> for Y` for a type Y the rules do not know (a
+        small carrier struct introduced later): the conversion is that impl's body, not the identity."""
+        nm_ = M.call_name(t)
+        m_ = re.search(r"^<(.*) as std::convert::Into<(.*)>>::into$", nm_)
+        tgt_base = m_.group(2).split("<")[0] if m_ else None
+        if m_ is None:
+            m2_ = re.search(r"^<(.*?) as std::convert::From<.*>>::from$", nm_)
+            tgt_base = m2_.group(1).split("<")[0] if m2_ else None
+        if tgt_base and self.facts is not None and is_unknown_struct(tgt_base):
+            cands = [f_ for f_ in self.facts.fns.values() if re.match(r"^<%s(<.*>)? as std::convert::From<.*>>::from$" % re.escape(tgt_base), f_.name)]
+            if len(cands) == 1 and self.stack.count(cands[0].name) < 3:
+                return (cands[0], list(args))
+        return None
+
     def do_inline(self, path, bb, t, args, tgt, go):
         callee, bound = tgt
         name = M.call_name(t)
@@ -1988,6 +2003,10 @@ class Engine:
                 path.events.append(("call", bb, name, tuple(args), val, t, self.fn.name, snap0))
                 self.write_loc(path, self.loc_of_place(path, t["dest"]), val, bb)
                 return [go(t["target"], pe), go(t["target"], path)]
+            if self.depth < self.max_depth and re.search(r"convert::(Into|From)<", name):
+                ctgt = self.carrier_target(t, args)
+                if ctgt is not None:
+                    return self.do_inline(path, bb, t, args, ctgt, go)
             if self.model is not None:
                 outcomes = self.model.call(self, path, bb, t, args)
             if outcomes is None:
